@@ -1,4 +1,5 @@
 import Apko.Model.Oci
+import Apko.Model.OciCreated
 /-! line-protocol handlers for corr:oci (C12).
 
 Encoding: a text is hex; a list is a comma separated sequence of `x<hex>` items (so that the empty
@@ -143,6 +144,46 @@ def configAnswer (ic : ImageCfg) (shEp shCmd created arch
       else Spec.configVerdict shlex ic cr ar o
   triple impl spec (if spec = "pass" then "-" else "unlisted")
 
+
+/-! creation time of a whole build (`oci.created-e2e`) -/
+
+def parseInt (t : Text) : Int :=
+  match t with
+  | '-' :: r => -(digitsToNat r : Int)
+  | _ => (digitsToNat t : Int)
+
+def parseInts (t : Text) : List Int := ((splitOnChar ',' t).filter (· ≠ [])).map parseInt
+
+def parseEnv (state sde : String) : OciCreated.Env :=
+  if state = "set" then .value (parseInt sde.toList)
+  else if state = "blank" then .blank
+  else if state = "malformed" then .malformed
+  else .unset
+
+/-- per architecture `<pkg dates>:<time fields>`, separated by `;` -/
+def parseCreatedImgs (s : String) : List (List Int × List Int) :=
+  ((splitOnChar ';' s.toList).filter (· ≠ [])).map fun it =>
+    match splitOnChar ':' it with
+    | [p, t] => (parseInts p, parseInts t)
+    | _ => ([], [])
+
+def showOptInt : Option Int → String
+  | some n => toString n
+  | none => "err"
+
+/-- Impl's rendering: one time per architecture, then the index; Go renders the DISTINCT times it read back -/
+def createdAnswer (env : OciCreated.Env) (opt : Int) (imgs : List (List Int × List Int)) (gErr : Bool) (idx : Option Int) : String :=
+  let implImgs := imgs.map fun a => OciCreated.Impl.imageCreated env opt a.1
+  let implIdx := OciCreated.Impl.indexCreated env opt (imgs.map (·.1))
+  let impl := if implIdx = none then "err" else joinS ";" (implImgs.map showOptInt) ++ "|" ++ showOptInt implIdx
+  let specFails := OciCreated.Spec.indexCreated env opt (imgs.map (·.1)) = none
+  let spec :=
+    if gErr then (if specFails then "pass" else "fail:unexpected-error")
+    else if specFails then "fail:error-expected"
+    else OciCreated.Spec.createdVerdict env opt imgs idx
+  let cls := if spec = "pass" then "-" else "unlisted"
+  triple impl spec cls
+
 def handle (args : List String) : Option String :=
   match args with
   | ["oci.arch", s] =>
@@ -204,6 +245,10 @@ def handle (args : List String) : Option String :=
     let ic := Spec.resolveCfg (unhexS epType) (parsePairs passwd) ic0
     some <| configAnswer ic shEp shCmd created arch
       gEp gCmd gWd gSig gUser gVol gEnv gLabels gAuthor gOs gCreated gArch gVariant
+  | ["oci.created-e2e", state, sde, opt, imgs, idx] =>
+    let gErr := imgs = "err"
+    some <| createdAnswer (parseEnv state sde) (parseInt opt.toList) (if gErr then [] else parseCreatedImgs imgs) gErr
+      (if idx = "-" then none else some (parseInt idx.toList))
   | "oci.e2e-wf" :: _ => some "-\t-\tunlisted"  -- byte-level end-to-end oracles are evaluated by the harness
   | _ => none
 
